@@ -373,5 +373,54 @@ PROPS['C17'] = {
                   'itself is evaluated on the real code for every generated value.',
 }
 
+PROPS['C08'] = {
+    'module': 'Yabgp.Props.C08All',
+    'theorems': ['Yabgp.C08_keepalive', 'Yabgp.C08_notification', 'Yabgp.C08_routerefresh', 'Yabgp.C08_open',
+                 'Yabgp.C08_update_body', 'Yabgp.C08_update', 'Yabgp.C08_update_no_addpath',
+                 'Yabgp.Mp.C08_mp_reach', 'Yabgp.Mp.C08_mp_unreach', 'Yabgp.C08_update_assembled',
+                 'Yabgp.C08_update_with_mp',
+                 'Yabgp.C08b_evpn_routes', 'Yabgp.C08b_evpn_reach', 'Yabgp.C08b_evpn_unreach',
+                 'Yabgp.C08b_flowspec_rules', 'Yabgp.C08b_flowspec_reach', 'Yabgp.C08b_flowspec_unreach',
+                 'Yabgp.C08c_srte_reach', 'Yabgp.C08c_srte_unreach', 'Yabgp.C08c_pmsi', 'Yabgp.C08c_tunnel',
+                 'Yabgp.C08c_flowspec6_reach',
+                 'Yabgp.C08d_extcomm',
+                 'Yabgp.KF_C08_addpath_plain_prefix',
+                 'Yabgp.KF_C08_ipv6_prefix_in_ipv4_nlri',
+                 'Yabgp.KF_C08_originator_id_ipv6',
+                 'Yabgp.KF_C08_aggregator_ipv6',
+                 'Yabgp.KF_C08_large_community_two_fields',
+                 'Yabgp.KF_C08_extcomm_redirect_nh_ipv6',
+                 'Yabgp.KF_C08_labeled_prefix_length_33',
+                 'Yabgp.KF_C08_ipv6_unicast_ipv4_nexthop',
+                 'Yabgp.KF_C08_srte_ipv6_endpoint',
+                 'Yabgp.KF_C08_evpn_esi_unknown_type',
+                 'Yabgp.KF_C08_evpn_type2_no_label',
+                 'Yabgp.KF_C08_evpn_type5_mixed_families',
+                 'Yabgp.KF_C08_tunnel_segment_ipv6_node',
+                 'Yabgp.KF_C08_tunnel_remote_endpoint_family',
+                 'Yabgp.KF_C08_flowspec6_and_items',
+                 'Yabgp.KF_C08_flowspec6_six_octet_value',
+                 'Yabgp.KF_C08_flowspec6_prefix_offset', 'Yabgp.KF_C08_flowspec4_prefix_length_33'],
+    'genagree': ['Yabgp.C08_flags_generated', 'Yabgp.C08_flag_bits_generated', 'Yabgp.C08c_generated_constants',
+                 'Yabgp.GenAgree.attr_flags', 'Yabgp.GenAgree.attr_codes', 'Yabgp.GenAgree.attr_ids',
+                 'Yabgp.GenAgree.header_consts', 'Yabgp.GenAgree.capability_codes'],
+    'suites': ['construct'],
+    'cannot': 'PARTIAL: theorems cover the constructor MODELS of OPEN, NOTIFICATION, KEEPALIVE, ROUTE-REFRESH, UPDATE with the '
+              'standard attributes (both AS widths, add-path), MP_REACH/MP_UNREACH for IPv6 unicast, labeled unicast, VPNv4/v6 '
+              'and EVPN, SR policy NLRI, PMSI tunnel, tunnel encapsulation (all segment kinds the code has a branch for) and '
+              'extended communities, IPv4 and IPv6 flow specifications; BGP-LS and Prefix-SID have no constructor in yabgp (the walker grammar '
+              'covers them on the tests\' captures only); the 4096-octet limit of RFC 4271 is not part of the walker (the property '
+              'does not state it); values are not judged (an ORIGIN of 7 walks); text <-> address conversion is netaddr\'s',
+    'level_text': 'Lean 4: an independent, decidable structural grammar of BGP messages (Spec/Walker.lean, RFC 4271/4760/7432/'
+                  '8955/8956/9012/9830/6514...) and, for every constructor model, a theorem "construct x = some w -> the walker '
+                  'accepts w" for ALL inputs (valid or error), assembled into whole UPDATEs by a composition theorem; the FLAG '
+                  'constants are regenerated from /repo on every run and re-checked against the RFC categories by decide. Tie: '
+                  'every message the REAL code constructs over the C06, C07, C14 spaces and the construct-only families '
+                  '(inputs harvested from the repository\'s tests by AST + boundary pools incl. wrong-family values) is piped to '
+                  'the Lean walker (spec.walk); the constructor models (with the guards of the repaired code) are compared '
+                  'with the real constructors and their own output is walked as well.',
+}
+
+
 # properties not claimed yet, with the reason that goes into MANIFEST.not_applicable
 NOT_YET = {}
